@@ -467,4 +467,113 @@ theorem deposit_eq (cfg : Config) (ctx : Ctx) (s : State) (dep : Deposit)
         · have : dep.sig_ok = false := by simpa using hsig
           simp [this]
 
+
+/-! ### (f) `process_withdrawals`: comparison, balances, index and cursor update -/
+
+def optRes {α} : Option α → Res α
+  | some a => .ok a
+  | none => .err
+
+theorem applyLoop_self : ∀ (es : List Withdrawal) (s : State),
+    withdrawalsApplyLoop es es s = match es.foldlM Block.decBal s.balances with
+      | some b => Res.ok { s with balances := b }
+      | none => Res.err := by
+  intro es
+  induction es with
+  | nil => intro s; rfl
+  | cons e es ih =>
+    intro s
+    unfold withdrawalsApplyLoop
+    simp only [ne_eq, not_true_eq_false, decide_false, Bool.or_self, Bool.false_eq_true, if_false]
+    unfold decreaseBalance rget
+    simp only [List.foldlM_cons, Block.decBal]
+    cases hb : s.balances[e.validator_index]? with
+    | none => rfl
+    | some x =>
+      simp only [res_bind_ok, pure, Res.ok.injEq]
+      have h1 : (if x ≥ e.amount then x - e.amount else 0) = (if e.amount > x then 0 else x - e.amount) := by
+        split <;> split <;> omega
+      rw [h1]
+      have := ih { s with balances := s.balances.set e.validator_index (if e.amount > x then 0 else x - e.amount) }
+      simp only [bind, Option.bind] at this ⊢
+      rw [this]
+
+theorem applyLoop_ne : ∀ (es ws : List Withdrawal) (s : State), es.length = ws.length → ws ≠ es →
+    withdrawalsApplyLoop es ws s = Res.err := by
+  intro es
+  induction es with
+  | nil => intro ws s hl hne; cases ws with
+    | nil => exact absurd rfl hne
+    | cons _ _ => simp at hl
+  | cons e es ih =>
+    intro ws s hl hne
+    cases ws with
+    | nil => simp at hl
+    | cons w ws' =>
+      unfold withdrawalsApplyLoop
+      by_cases hw : w = e
+      · subst hw
+        simp only [ne_eq, not_true_eq_false, decide_false, Bool.or_self, Bool.false_eq_true, if_false]
+        have hne' : ws' ≠ es := by intro h; apply hne; rw [h]
+        cases hd : decreaseBalance s w.validator_index w.amount with
+        | ok s' => simp only; exact ih ws' s' (by simpa using hl) hne'
+        | err => rfl
+        | panic =>
+          unfold decreaseBalance rget at hd
+          cases hb : s.balances[w.validator_index]? <;> simp [hb, bind, Res.bind, pure] at hd
+        | outOfFuel =>
+          unfold decreaseBalance rget at hd
+          cases hb : s.balances[w.validator_index]? <;> simp [hb, bind, Res.bind, pure] at hd
+      · have : (decide (w.index ≠ e.index) || decide (w.validator_index ≠ e.validator_index) || decide (w.address ≠ e.address) ||
+            decide (w.amount ≠ e.amount)) = true := by
+          by_cases h1 : w.index = e.index <;> by_cases h2 : w.validator_index = e.validator_index <;>
+            by_cases h3 : w.address = e.address <;> by_cases h4 : w.amount = e.amount <;> simp [h1, h2, h3, h4]
+          apply hw
+          cases w; cases e; simp_all
+        simp only [this, if_true]
+
+/-- (f) `capella.ProcessWithdrawals` = the specification's `process_withdrawals` state update — the element-wise
+comparison interleaved with the balance decreases, the withdrawal index, and the sweep-cursor update of BOTH branches,
+for every registry size (also smaller than `MAX_VALIDATORS_PER_WITHDRAWALS_SWEEP`) — given that the sweep returned
+`expected` (`withdrawals_eq`) and the indices stay inside `uint64`. -/
+theorem withdrawalsApply_eq (cfg : Config) (s : State) (payload : ExecutionPayload) (expected : List Withdrawal)
+    (hexp : expectedWithdrawals cfg s = .ok expected)
+    (hidx : ∀ w ∈ expected, w.index + 1 < 2 ^ 64 ∧ w.validator_index + 1 < 2 ^ 64)
+    (hcur : s.next_withdrawal_validator_index + cfg.MAX_VALIDATORS_PER_WITHDRAWALS_SWEEP < 2 ^ 64)
+    (hmax : cfg.MAX_WITHDRAWALS_PER_PAYLOAD ≠ 0) :
+    processWithdrawals cfg s payload = optRes (Block.process_withdrawals_pure cfg s expected payload.withdrawals) := by
+  unfold processWithdrawals Block.process_withdrawals_pure
+  simp only [hexp, res_bind_ok, guard_bind]
+  by_cases hlen : expected.length = payload.withdrawals.length
+  · simp only [hlen, decide_true, if_true]
+    by_cases heq : payload.withdrawals = expected
+    · rw [heq, applyLoop_self]
+      simp only [ne_eq, not_true_eq_false, if_false]
+      -- the sweep returned something only if the registry is not empty
+      have hne : ¬ s.validators.length = 0 := by
+        intro h0
+        unfold expectedWithdrawals withdrawalsLoop at hexp
+        have : s.validators[s.next_withdrawal_validator_index]? = none := by simp; omega
+        simp [this, h0] at hexp
+      cases hf : expected.foldlM Block.decBal s.balances with
+      | none => simp [hne, optRes]
+      | some b =>
+        simp only [res_bind_ok, hne, if_false]
+        cases hl : expected.getLast? with
+        | none =>
+          have hnil : expected = [] := List.getLast?_eq_none_iff.mp hl
+          have hlen0 : ¬ expected.length = cfg.MAX_WITHDRAWALS_PER_PAYLOAD := by rw [hnil]; simp; omega
+          simp only [hlen0, if_false]
+          rw [w64_id _ hcur]
+          simp [optRes, pure, hne]
+        | some l =>
+          have hm := hidx l (List.mem_of_getLast? hl)
+          simp only []
+          rw [w64_id _ hm.1, w64_id _ hm.2, w64_id _ hcur]
+          split <;> simp [optRes, pure, hne]
+    · rw [applyLoop_ne expected payload.withdrawals s hlen heq]
+      simp [heq, optRes]
+  · have hne : payload.withdrawals ≠ expected := by intro h; apply hlen; rw [h]
+    simp [hlen, hne, optRes]
+
 end Zrnt.Proofs.BlockM
